@@ -498,6 +498,19 @@ pub fn enumerate_single(rng: &mut Rng) -> Vec<Scenario> {
     res
 }
 
+/// Two sessions; the second one's serials are below the first one's.
+pub fn session_history() -> Vec<Version> {
+    let v = |session, serial, objs: &[(u64, u64)]| Version {
+        session, serial, objs: objs.iter().cloned().collect()
+    };
+    vec![
+        v(0, 8, &[(0, 20), (1, 21), (2, 22)]),
+        v(0, 9, &[(0, 20), (1, 23), (3, 24)]),
+        v(1, 2, &[(0, 20), (2, 25)]),
+        v(1, 3, &[(0, 26), (2, 25), (3, 27)]),
+    ]
+}
+
 /// The server goes backwards within the session: after synchronising to
 /// version 3 (serial 6) the genuine view of an older version is presented
 /// (one back, several back, below the oldest delta the client knows, the
@@ -529,6 +542,22 @@ pub fn enumerate_rollback(rng: &mut Rng) -> Vec<Scenario> {
                     });
                 }
             }
+        }
+    }
+    // Sessions flip: session 0 -> session 1 -> the old session 0 again -> session 1,
+    // with the old session's serial above, and the new one's below, the local serial.
+    let sess = session_history();
+    for (a, b, c2) in [(1usize, 3usize, 1usize), (1, 2, 0), (0, 3, 1), (3, 1, 3)] {
+        for list in [5usize, 0] {
+            let s1 = genuine_step(&sess, a, 5, 1);
+            let s2 = genuine_step(&sess, b, 5, 60);
+            let mut s3 = genuine_step(&sess, c2, list, 60);
+            s3.faults.push("SessionFlip".into());
+            let s4 = genuine_step(&sess, 3, 5, 60);
+            res.push(Scenario {
+                max_delta_count: 3, max_delta_list_len: 6,
+                history: sess.clone(), steps: vec![s1, s2, s3, s4],
+            });
         }
     }
     // Only the notification's serial goes down, the files are current.
